@@ -173,6 +173,57 @@ theorem navigation_failed_iff (L Dm : AMat Rat n) (mh : Option ℕ) (fuel : ℕ)
     · rw [e2] at hinf; exact absurd hinf (by simp)
     · exact hs
 
+/-- **`navigation_run_spec`** — the whole run of `navigation_wu`, as assembled by the model: for every ordered pair
+`i ≠ j` the recorded path is `i :: q` with
+* every step along an existing connection (`stepsOK`) and taken exactly as coded (`stepsCoded`: from a node that is not the
+  target to the neighbour closest to the target in `D`, first minimum; not back to the previous node; `pl_bin ≤ max_hops`),
+* on success (`q` ends at `j`): `PL_bin = |q|`, `PL_wei = Σ L` and `PL_dis = Σ D` along `q`,
+* on failure (`q` ends elsewhere): all three `∞`, and at the last node one of the three coded reasons holds (`StopReason`:
+  dead end / the greedy choice is the previous node / `pl_bin > max_hops`);
+the diagonal of the three matrices is `∞`, and `sr = 1 − #failed ordered pairs / (n² − n)`. -/
+theorem navigation_run_spec (L Dm : AMat Rat n) (mh : Option ℕ) (fuel : ℕ) (o : NavOut n)
+    (h : navigation L Dm mh fuel = some o) :
+    (∀ i j, i ≠ j → ∃ q, o.paths.get i j = i :: q ∧ stepsOK L i q ∧ stepsCoded L Dm mh j i 0 i q ∧
+      ((lastOf i q = j ∧ o.bin.get i j = .fin (q.length : ℕ) ∧ o.wei.get i j = .fin (sumAlong L i q) ∧
+          o.dis.get i j = .fin (sumAlong Dm i q)) ∨
+       (lastOf i q ≠ j ∧ o.bin.get i j = .inf ∧ o.wei.get i j = .inf ∧ o.dis.get i j = .inf ∧
+          StopReason L Dm mh j (endState i 0 i q).1 q.length (lastOf i q)))) ∧
+    (∀ i, o.bin.get i i = .inf ∧ o.wei.get i i = .inf ∧ o.dis.get i i = .inf) ∧
+    o.sr = 1 - (((offDiag n).filter fun p => o.bin.get p.1 p.2 = .inf).length : Rat) / ((n * n - n : ℕ) : Rat) := by
+  obtain ⟨hv, hd, hs⟩ := navigation_valid L Dm mh fuel o h
+  refine ⟨?_, hd, hs⟩
+  intro i j hij
+  obtain ⟨q, hp, hok, hcase⟩ := hv i j hij
+  -- the trace of the same pair
+  unfold navigation at h
+  split_ifs at h with hall
+  simp only [Option.some.injEq] at h
+  obtain ⟨r, hr⟩ := Option.isSome_iff_exists.mp (hall i j hij)
+  obtain ⟨q', hq', hsteps, hend⟩ := navPair_trace L Dm mh fuel i j r hr
+  have hc : navCell L Dm mh fuel i j = some r := by simp [navCell, hij, hr]
+  have hpath : o.paths.get i j = r.path := by rw [← h]; simp [hc]
+  have hqq : q' = q := by
+    have := hp; rw [hpath, hq'] at this
+    simpa using this
+  subst hqq
+  obtain ⟨e1, e2⟩ := endState_spec q' i 0 i
+  refine ⟨q', hp, hok, hsteps, ?_⟩
+  rcases hcase with hc1 | hc2
+  · exact Or.inl hc1
+  · refine Or.inr ⟨hc2.1, hc2.2.1, hc2.2.2.1, hc2.2.2.2, ?_⟩
+    rcases hend with ⟨g1, _⟩ | ⟨_, _, _, _, hs'⟩
+    · rw [e1] at g1; exact absurd g1 hc2.1
+    · rw [e1, e2] at hs'; simpa using hs'
+
+/-- **`navigation_total`**: with `max_hops = h` given, the model returns as soon as the fuel is at least `h + 3` (every pair's
+walk makes at most `h + 1` steps before the hop budget stops it). With `max_hops = None` termination is not claimed (the
+real routine can cycle forever). -/
+theorem navigation_total (L Dm : AMat Rat n) (h fuel : ℕ) (hf : h + 3 ≤ fuel) :
+    ∃ o, navigation L Dm (some h) fuel = some o := by
+  unfold navigation
+  rw [if_pos (fun i j _ => navPair_isSome L Dm h fuel hf i j)]
+  exact ⟨_, rfl⟩
+
 /-! ## non-vacuity -/
 
 example : retrieve (floyd (lenMat .none ex3)).hops (floyd (lenMat .none ex3)).P 1 1 = [] := by decide +kernel
@@ -187,5 +238,19 @@ example : (navigation navL navD none 10).map (fun o => (o.sr, o.bin.get 0 2, o.w
     some (1, .fin 2, .fin 4, [0, 1, 2]) := by decide +kernel
 example : (navigation navL navD (some 0) 10).map (fun o => (o.sr, o.bin.get 0 2, o.paths.get 0 2)) =
     some (2 / 3, .inf, [0, 1]) := by decide +kernel
+
+/-! ### non-vacuity from a recorded run of the real code -/
+
+/-- `L = [[0,2,0,1],[2,0,1,0],[0,1,0,3],[1,0,3,0]]`, `D` = ring distance on 4 nodes, `max_hops = 2` -/
+def recL : AMat Rat 4 := AMat.ofFn fun i j =>
+  (([[0, 2, 0, 1], [2, 0, 1, 0], [0, 1, 0, 3], [1, 0, 3, 0]] : List (List Rat)).getD i.val []).getD j.val 0
+def recDm : AMat Rat 4 := AMat.ofFn fun i j =>
+  (([[0, 1, 2, 1], [1, 0, 1, 2], [2, 1, 0, 1], [1, 2, 1, 0]] : List (List Rat)).getD i.val []).getD j.val 0
+/-- recorded: `bct.navigation_wu(L, D, 2)` returned `sr = 1.0`, `PL_bin[0,2] = 2`, `PL_wei[0,2] = 3`, `PL_dis[3,1] = 2`,
+`paths[(0,2)] = [0,1,2]`, `paths[(3,1)] = [3,0,1]` -/
+example : (navigation recL recDm (some 2) 5).map (fun o => (o.sr, o.bin.get 0 2, o.wei.get 0 2, o.dis.get 3 1)) =
+    some (1, .fin 2, .fin 3, .fin 2) := by decide +kernel
+example : (navigation recL recDm (some 2) 5).map (fun o => (o.paths.get 0 2, o.paths.get 3 1)) =
+    some ([0, 1, 2], [3, 0, 1]) := by decide +kernel
 
 end Bct.C12
